@@ -76,7 +76,10 @@ type Config struct {
 	LocalInContainer    bool
 	Maintenance         bool
 	ACLSeesLocalHeaders bool // false: the ACL checker has no local storage (header known only once a handler produced it)
-	Shards              int  // default 1
+	// RemoteHolds: the local node is a container node but does not hold the objects; the two other
+	// container nodes (reachable fake nodes) do. Implies LocalInContainer.
+	RemoteHolds bool
+	Shards      int // default 1
 }
 
 // World is one live object service over a real engine with recording boundaries.
@@ -225,9 +228,13 @@ func New(cfg Config) (*World, error) {
 		return nil, err
 	}
 	w := &World{Cfg: cfg, Rec: &Recorder{}, Dir: dir}
+	if cfg.RemoteHolds {
+		cfg.LocalInContainer = true
+		w.Cfg = cfg
+	}
 	w.Chain = &Chain{Rec: w.Rec, CnrID: CID("A"), BasicACL: cfg.BasicACL, EACL: cfg.EACL,
-		LocalInContainer: cfg.LocalInContainer, Maintenance: cfg.Maintenance}
-	w.Net = &Net{Rec: w.Rec}
+		LocalInContainer: cfg.LocalInContainer, ThreeNodes: cfg.RemoteHolds, Maintenance: cfg.Maintenance}
+	w.Net = &Net{Rec: w.Rec, Remotes: map[string]*RemoteNode{}}
 	w.Eng, err = NewEngine(dir, cfg.Shards, w.Chain)
 	if err != nil {
 		w.Close()
@@ -235,7 +242,16 @@ func New(cfg Config) (*World, error) {
 	}
 	w.R1 = NewObject(w.Chain.CnrID, SecretAttr, SecretVal, R1Payload)
 	w.R2 = NewObject(w.Chain.CnrID, SecretAttr, "public", []byte("public-payload-0123456789abcdef0123456789abcdef0123456789abcdef!"))
-	if cfg.LocalInContainer {
+	if cfg.RemoteHolds {
+		for _, l := range []string{RemoteA, RemoteB} {
+			rn, err := NewRemoteNode(l, w.Rec, w.R1, w.R2)
+			if err != nil {
+				w.Close()
+				return nil, err
+			}
+			w.Net.Remotes[string(Pub(l))] = rn
+		}
+	} else if cfg.LocalInContainer {
 		for _, o := range []*object.Object{w.R1, w.R2} {
 			if err := w.Eng.Put(context.Background(), o, nil); err != nil {
 				w.Close()
@@ -303,6 +319,11 @@ func New(cfg Config) (*World, error) {
 
 // Close stops the engine and removes the scratch directory.
 func (w *World) Close() {
+	if w.Net != nil {
+		for _, r := range w.Net.Remotes {
+			r.Close()
+		}
+	}
 	if w.Eng != nil {
 		engineRecorders.Delete(w.Eng)
 		_ = w.Eng.Close()
